@@ -38,8 +38,8 @@ pub enum ChildResult {
 }
 
 pub fn run_child(spec: &Spec) -> ChildResult {
-    let exe = std::env::current_exe().expect("current_exe");
-    let mut cmd = Command::new(exe);
+    // the running image itself, even if the file on disk was rebuilt meanwhile
+    let mut cmd = Command::new("/proc/self/exe");
     cmd.env("SIMH_CHILD", "1").env_remove("RUST_LOG").stdin(Stdio::piped()).stdout(Stdio::piped());
     if std::env::var("SIMH_STDERR").is_ok() {
         cmd.stderr(Stdio::inherit());
@@ -174,6 +174,7 @@ pub fn required_probes(property: &str) -> Vec<&'static str> {
         "C09" => vec!["c09_md5_challenge_seen", "c09_valid_login", "c09_attack_wrong", "c09_attack_replay", "c09_attack_truncated", "c09_attack_hash_empty", "c09_attack_othermsg", "c09_attack_unknown_user", "c09_attack_admin_wrong", "c09_attack_old_password_after_change", "c09_valid_login_admitted", "c09_login_during_shutdown", "c09_attack_late_correct"],
         "C10" => vec!["c10_cancel_at_backend", "c10_cancel_hit_own_statement", "c10_running_statement_cancelled", "c10_unknown_key_sent", "c10_idle_target_no_contact", "c10_departed_target_no_contact"],
         "C11" => vec!["c11_canary_step_checked", "c11_stage_startup", "c11_stage_password", "c11_stage_post_auth", "c11_stage_in_txn", "c11_stage_in_copy", "c11_stage_admin", "c11_stage_after_parse", "relay_compared_steps", "c11_payload_len_negative", "c11_payload_unknown_type", "c11_payload_b_param_len_beyond", "c11_payload_random_bytes"],
+        "C13" => vec!["c13_command", "c13_not_a_command", "c13_non_command_forwarded", "c13_show_compared", "c13_out_of_range_refused", "c13_number_beyond_64_bits", "c13_grey_spelling"],
         "C16" => vec!["c16_pause_interval", "c16_txn_sent_while_paused", "c16_client_held_then_released", "yield:pool.wait_paused.between"],
         "C08" => vec!["c08_execute_checked", "c08_execute_on_reused_connection", "c08_eviction_close_sent", "c08_reference_compared_steps"],
         _ => vec![],
@@ -452,6 +453,7 @@ fn rule_of(property: &str) -> String {
         "C09" => "honest clients (MD5 cleartext secret, auth_query secret, trust user, admin) next to attackers: wrong password, replay of a response captured from an honest client of the same run, truncated and oversized responses, a Query in place of the password, EOF and silence in the handshake, the empty-secret answer, unknown user/database, another user's password, admin database with wrong or application credentials; every attacker keeps sending tagged queries afterwards; auth_query runs also change the secret on the servers mid-run and boot with the lookup role unable to log in; a quarter of the runs raise SIGINT while a transaction is open and send logins with valid and invalid credentials afterwards",
         "C10" => "2-5 runners with sleeping statements (simple and extended, bare and inside transactions), idle periods and departures inside a transaction over pools of 1-2 connections per server with 0-2 replicas, both pool modes; 1-3 cancellers sending CancelRequests with the target's key while its statement runs, 0-3 ms and 150-600 ms after its transaction ended, after it left, and with a wrong secret, wrong pid or random key; a late victim with long statements on the reused connections; yield sites after claim and before release",
         "C11" => "1-2 canaries and an admin canary next to 1-5 attackers sharing a pool of 1-2 connections (both modes, statement cache on/off, query parser on/off); hostile bytes before the startup packet (15 classes), in place of the password, after authentication idle / inside a transaction / inside COPY IN / after a Parse / on the admin console (42 payload classes: inconsistent, negative and huge declared lengths, unknown and backend-only types, malformed Parse/Bind/Describe/Close/Execute/Query bodies, valid messages in invalid order, half frames, PRNG bytes); every other run includes lengths that ask for 2 GiB under a simulated 1 GiB memory limit; final probes after the attackers are gone",
+        "C13" => "1-3 clients idle in a transaction-mode pool over 1-4 shards, each sending 4-30 simple queries: the seven commands in every documented spelling (letter case, optional quotes, spaces around, optional semicolon), numeric arguments up to 60 digits, near misses (comments before/after, multi-statement forms, the command inside a string literal, wrong operators and values), undocumented spellings (counted, not judged) and ordinary statements in between; both sharding functions, all default roles; every third run loses all servers after start-up",
         "C16" => "PAUSE/RESUME cycles (global or per pool) by an admin client; workers running throughout, clients that are idle when the pause begins, clients arriving after the PAUSE acknowledgement, mid-transaction clients; both pool modes; random subset of the yield sites inside wait_paused and between wait_paused and checkout; RESUME at PRNG times including right after a held client's message went out",
         "C12" => "2-5 clients sharing 1-2 server connections; startup parameter sets and SET sequences of tracked and untracked parameters; every fourth run uses hostile values (quotes, backslashes, non-ASCII, empty)",
         _ => "see DESIGN.md",
